@@ -74,3 +74,33 @@ def deep_text(crate, e):
                     out.append(str(c.hir))
                     stack.append(c.hir)
     return ' '.join(out)
+
+
+class Proxy:
+    """re-evaluates rules of a sibling property under another rule id, so that a breach is reported under both properties"""
+
+    def __init__(self, rep, to):
+        self.rep, self.to = rep, to
+
+    def rule(self, rid, t, text):
+        pass
+
+    def ok(self, rid, inst, loc_='', detail=''):
+        self.rep.ok(self.to, f'{rid}:{inst}', loc_, detail)
+
+    def violation(self, rid, inst, loc_='', detail='', key=None, expected=''):
+        self.rep.violation(self.to, f'{rid}:{inst}', loc_, detail, key=(key or f'{rid}/{inst}').replace(rid, self.to + '/' + rid, 1),
+                           expected=expected)
+
+    def floor(self, rid, found, minimum, what):
+        self.rep.floor(self.to, found, minimum, f'{rid} {what}')
+
+    def anchor_missing(self, rid, e):
+        self.rep.anchor_missing(self.to, e)
+
+    def note(self, t):
+        self.rep.note(t)
+
+    @property
+    def analysed(self):
+        return self.rep.analysed
